@@ -238,3 +238,14 @@ def _m_k05(case, fj):
 @matcher("uint64_column")
 def _m_k06(case, fj):
     return any(d == "uint64" for t in case.get("tables", []) for _, d in t["cols"])
+
+
+@matcher("const_column_as_const_param")
+def _m_k07(case, fj):
+    """K07: the distance of `shift` / the digits of `round` given as a column reference instead of a python value."""
+    for st_ in steps_of(case):
+        for e in ir.step_exprs(st_):
+            for nd in ir.walk_expr(e):
+                if nd[0] == "fn" and nd[1] in ("shift", "round") and len(nd[2]) > 1 and nd[2][1][0] != "lit":
+                    return True
+    return False
